@@ -56,6 +56,7 @@ def run(ctx):
     ctx.rule('R10.2', 'with exactly one pair exempt (NEVER_COLLIDES) the evaluated table loses exactly that pair (either key order; also pairs naming J1 and adjacent pairs)')
     ctx.rule('R10.3', 'each task pairs reporting index k with the shape and transform of body k')
     ctx.rule('R10.4', 'per-pair decision: r <= NEVER_COLLIDES -> false; r == TOUCH_ONLY -> intersection test; else pre-filter then distance <= r on the same operands; reported pair (min,max)')
+    ctx.rule('R10.8', 'the bounding-box pre-filter is conservative: a solid box (Cuboid) = bounding box of the smaller shape loosened by r_min, at its centre, against the larger shape')
     ctx.rule('R10.5', 'exemptions are read from the safety table in use (the parameter), not from the body\'s own table; min_distance is order-insensitive')
     ctx.rule('R10.6', 'mode dispatch: NoCheck -> empty, FirstCollisionOnly -> find_map_any, otherwise filter_map + collect; collides() forces first-collision mode')
     ctx.rule('R10.7', 'closures handed to rayon capture shared references only and reach no atomics, locks, interior mutability or RNG')
@@ -145,6 +146,65 @@ def _min_distance(ctx, prog):
                   'lookup must try (a,b), then (b,a), then environment / robot default', found=got, expected=want)
 
 
+def _uncast(t):
+    t = strip(t)
+    while isinstance(t, tuple) and t[0] in ('cast', 'as') and isinstance(t[1], tuple):
+        t = strip(t[1])
+    return t
+
+
+def _prefilter_conservative(ctx, b, bi, t):
+    """R10.8: the pre-filter may answer `far` only when the exact distance would exceed r_min.  Its box side must therefore be a
+    *solid* box (parry's Cuboid): the bounding box of the smaller shape loosened by r_min, placed at that box's centre in the
+    smaller shape's frame, tested against the larger shape with the larger shape's transform.  A triangle mesh of the box
+    surface is not touched by a body lying wholly inside the box, which then counts as distant."""
+    args = [_uncast(b.op_term(a, (bi, None))) for a in t['args']]
+    where = b.where(bi)
+
+    def box_side(sh):
+        return mir.contains(sh, lambda x: x[0] == 'call' and cname(x[1]).split('::')[-1] == 'loosened')
+    sides = [(0, 1), (2, 3)]
+    box = [sd for sd in sides if box_side(args[sd[1]])]
+    if not ctx.check(len(box) == 1, 'R10.8', 'prefilter/box-side', where, b.path, 'exactly one side of the pre-filter must be the enlarged bounding box', found=[show(a, maxdepth=4) for a in args]):
+        return
+    (ti, si) = box[0]
+    (to, so) = [sd for sd in sides if sd != box[0]][0]
+    sh, tr = args[si], args[ti]
+    solid = isinstance(sh, tuple) and sh[0] == 'call' and cname(sh[1]) == 'Cuboid::new'
+    built = cname(sh[1]) if isinstance(sh, tuple) and sh[0] == 'call' else show(sh, maxdepth=2)
+    if not ctx.check(solid, 'R10.8', 'prefilter/solid-box', where, b.path,
+                     'the enlarged bounding box is tested as a surface mesh (%s): a body lying wholly inside the box does not touch its surface, the pre-filter '
+                     'answers `far` and a pair closer than its safety distance is not reported' % built, found=show(sh, maxdepth=4), expected='Cuboid::new(aabb.half_extents()) placed at aabb.center()'):
+        return
+    he = strip(sh[2])
+    ok = isinstance(he, tuple) and he[0] == 'call' and cname(he[1]).split('::')[-1] == 'half_extents'
+    aabb = strip(he[2]) if ok else None
+    okl = False
+    small = None
+    if ok and isinstance(aabb, tuple) and aabb[0] == 'call' and cname(aabb[1]).split('::')[-1] == 'loosened':
+        src, amount = strip(aabb[2]), strip(aabb[3])
+        okl = isinstance(src, tuple) and src[0] == 'call' and cname(src[1]).split('::')[-1] == 'local_aabb' and \
+            isinstance(amount, tuple) and amount[0] == 'call' and cname(amount[1]) == 'SafetyDistances::min_distance'
+        small = strip(src[2]) if okl else None
+    ctx.check(ok and okl, 'R10.8', 'prefilter/box-size', where, b.path, 'the box must be the local bounding box of the smaller shape loosened by r_min (the safety distance of this pair)',
+              found=show(sh, maxdepth=7))
+    # placement: small transform * translation(centre of the same box)
+    okp = False
+    if isinstance(tr, tuple) and tr[0] == 'call' and cname(tr[1]).split('::')[-1] == 'mul' and aabb is not None:
+        base, shift = strip(tr[2]), tr[3]
+        centres = mir.subterms(shift, lambda x: x[0] == 'call' and cname(x[1]).split('::')[-1] == 'center')
+        same_box = len(centres) == 1 and strip(centres[0][2]) == aabb
+        paired = isinstance(base, tuple) and base[0] == 'fld' and isinstance(small, tuple) and small[0] == 'fld' and strip(base[1]) == strip(small[1]) \
+            and (small[2], base[2]) == ('0', '1')
+        okp = same_box and paired
+    ctx.check(okp, 'R10.8', 'prefilter/box-placement', where, b.path, 'the solid box must sit at the centre of that same bounding box, in the frame of the smaller shape', found=show(tr, maxdepth=7))
+    # other side: the larger shape with its own transform
+    oo, ot = args[so], args[to]
+    oko = isinstance(oo, tuple) and isinstance(ot, tuple) and oo[0] == 'fld' and ot[0] == 'fld' and strip(oo[1]) == strip(ot[1]) and (oo[2], ot[2]) == ('2', '3') and \
+        (small is None or strip(oo[1]) == strip(small[1]))
+    ctx.check(oko, 'R10.8', 'prefilter/other-side', where, b.path, 'the box must be tested against the larger shape under the larger shape\'s transform', found='%s / %s' % (show(ot, maxdepth=4), show(oo, maxdepth=4)))
+
+
 def _decision(ctx, prog):
     b = util.find_role(ctx, 'per-pair decision: method of CollisionTask returning Option<(u16, u16)>',
                        lambda b, sg: 'CollisionTask' in (b.raw.get('impl_self') or '') and 'Option<(u16, u16)>' in sg[0].replace('std::option::', ''), module='collisions::')
@@ -206,6 +266,7 @@ def _decision(ctx, prog):
                     a, bb_, c, d = flds
                     pair_ok = pair_ok and a[-1] == bb_[-1] and c[-1] == d[-1] and a[-1] != c[-1] and a.startswith('shape') and bb_.startswith('transform')
         ctx.check(pair_ok, 'R10.4', 'decision/prefilter-pairing', b.where(bi), b.path, 'the small/large tuple must keep each transform with its own shape')
+        _prefilter_conservative(ctx, b, bi, t)
     # reported pair = (min(i,j), max(i,j))
     ok = False
     for i2, j2, st in b.stmts():
@@ -316,8 +377,20 @@ def _dispatch(ctx, prog, enum_b):
         g = [(show(x, maxdepth=5), opw.truth(k)) for x, k, sw in cb.guard_terms(d[1])]
         if util.const_val(t) in (0, False) and any('NoCheck' in s and v is True for s, v in g):
             kinds.add('nocheck-false')
-        if isinstance(t, tuple) and t[0] == 'un' and t[1] == 'Not' and 'is_empty' in show(t[2], maxdepth=3):
-            inner = strip(strip(t[2])[2])
+        inner = util.nonempty_of(t)
+        if inner is None and util.const_val(t) in (0, 1, True, False):
+            # `if hits.is_empty() { false } else { true }`
+            want = bool(util.const_val(t))
+            for x, k, sw in cb.guard_terms(d[1]):
+                x = strip(x)
+                if isinstance(x, tuple) and x[0] == 'call' and cname(x[1]).split('::')[-1] == 'is_empty' and opw.truth(k) is (not want):
+                    inner = strip(x[2])
+                    kinds.add('first-nonempty/%s' % want)
+                    if {'first-nonempty/True', 'first-nonempty/False'} <= kinds:
+                        kinds -= {'first-nonempty/True', 'first-nonempty/False'}
+                    else:
+                        inner = None
+        if inner is not None:
             s = show(inner, maxdepth=6)
             if enum_b.path.split('::')[-1] in s and 'FirstCollisionOnly' in s:
                 kinds.add('first-nonempty')
